@@ -32,7 +32,7 @@ def exFloat : TFld :=
     valid := { shape := [3], buf := [true, true, false] },
     vdims := none, vmap := [], unit := none }
 
-/-- a legacy file meeting the hypotheses of `legacy_read_doc` (p1/p2 unordered, int data) -/
+/-- a legacy file meeting the hypotheses of `legacy_read` (p1/p2 unordered, int data) -/
 def exLegacy : Legacy :=
   { p1 := .floats [2, 0], p2 := .floats [0, 1], n := [2, 1], dim := 3,
     array := { shape := [2, 1, 3], buf := .ints [1, 2, 3, 4, 5, 6] }, sidecar := none }
